@@ -24,25 +24,6 @@ open Real Hand.Kernel Matrix
 
 namespace C16
 
-/-- `covariance(X, X)` as a real matrix -/
-noncomputable def covMat (k : K R) (X : List (List R)) : Matrix (Fin X.length) (Fin X.length) ℝ :=
-  fun i j => (cov k (X.get i) (X.get j)).val
-
-/-- the hypothesis: every leaf of the five stationary families has a PSD matrix on `X`
-    (nothing is assumed about Constant and White leaves, nor about the combinators) -/
-def LeafPSD (X : List (List R)) : K R → Prop
-  | .const _ => True
-  | .white _ => True
-  | .add a b => LeafPSD X a ∧ LeafPSD X b
-  | .mul a b => LeafPSD X a ∧ LeafPSD X b
-  | k => (covMat k X).PosSemidef
-
-theorem covMat_add (a b : K R) (X : List (List R)) : covMat (.add a b) X = covMat a X + covMat b X := by
-  ext i j; simp only [covMat, cov, R.add_val, Matrix.add_apply]
-
-theorem covMat_mul (a b : K R) (X : List (List R)) : covMat (.mul a b) X = covMat a X ⊙ covMat b X := by
-  ext i j; simp only [covMat, cov, R.mul_val, Matrix.hadamard_apply]
-
 -- @site ConstantKernel::covariance
 /-- the constant kernel with a non-negative scale is PSD: `c · 𝟙𝟙ᵀ` -/
 theorem const_psd (c : R) (hc : 0 ≤ c.val) (X : List (List R)) : (covMat (.const c) X).PosSemidef := by
